@@ -508,6 +508,7 @@ Definition construct (G : genv) (cls : string) (args : list value) (kw : list (s
             do b <- bind_params_d ["input"; "value"] [("input", VNone); ("value", VNone)] args kw;
             match assoc "input" b, assoc "value" b with
             | Some VNone, Some v => Ok (VObj cls [("input", VNone); ("value", v)])
+            | Some (VInt z), Some _ => Ok (VObj cls [("input", VNone); ("value", VInt z)])     (* Integer(5) *)
             | Some (VObj ic ifs), Some _ =>
                 Ok (VObj cls [("input", VObj ic ifs);
                               ("value", match assoc "__ctx__" ifs with Some v => v | None => VNone end)])
